@@ -332,7 +332,7 @@ class Verdict:
     nviol = len(self.violations)
     self.kf.print_lines(self.prop)
     if os.environ.get('VERIF_DEBUG'):
-      for key, g in sorted(self.groups.items(), key=lambda kv: -kv[1]['count']):
+      for key, g in sorted(self.groups.items(), key=lambda kv: -kv[1]['count'])[:12]:
         print(f"GROUP x{g['count']}: {key}\n      e.g. {json.dumps(g['case'], default=str)[:700]}")
     replay_paths = []
     seen = set()
